@@ -5,7 +5,7 @@
       functions of the unit list, the unit type being bits 14..9 of the 16-bit header (C14HevcSpec.v). *)
 From V.lib Require Import Base.
 From V.c14 Require Import C14Spec C14Model C14HevcSpec C14HevcModel.
-From V.c14 Require Import C14WordProofs C14ScanProofs C14ConvProofs C14WalkProofs C14StreamProofs.
+From V.c14 Require Import C14WordProofs C14ScanProofs C14ConvProofs C14WalkProofs C14StreamProofs C14HevcPackProofs.
 Local Open Scope Z_scope.
 
 (* ------------------------------------------------------------------ 1. agreement of the two transcriptions *)
@@ -131,63 +131,111 @@ Proof. apply hevc_trim_loop_eq. Qed.
 Lemma hevc_sc_at_eq d i : hevc_sc_at d i = sc_at d i.
 Proof. reflexivity. Qed.
 
-Lemma hevc_gpsb_loop_eq d : forall fuel n i cur acc,
-  hevc_gpsb_loop fuel d n i cur acc = bs_loop (gpsb_body hevc_type hevc_ps_class 32 d) fuel d n i (cur, acc).
+Lemma rbind_ext {A B} (r : res A) (f g : A -> res B) : (forall x, f x = g x) -> rbind r f = rbind r g.
+Proof. intros H. destruct r; cbn [rbind]; [apply H|reflexivity|reflexivity|reflexivity]. Qed.
+
+Lemma rbind_assoc {A B C} (r : res A) (f : A -> res B) (g : B -> res C) :
+  rbind (rbind r f) g = rbind r (fun x => rbind (f x) g).
+Proof. destruct r; reflexivity. Qed.
+
+(* the scanning loop of GetParameterSetsFromByteStream: the sets are those of the shared loop, and totSize
+   grows by exactly the lengths of the sets appended *)
+Definition attach (tot0 : Z) (r : (Z * ps3) + ps3) : (Z * hevc_ps * Z) + (hevc_ps * Z) :=
+  match r with
+  | inl (c, a) => inl (c, a, tot0 + sum3 a)
+  | inr a => inr (a, tot0 + sum3 a)
+  end.
+
+Lemma hevc_gpsb_loop_eq d tot0 : forall fuel n i cur acc,
+  hevc_gpsb_loop fuel d n i cur acc (tot0 + sum3 acc) =
+  (do r <- bs_loop (gpsb_body hevc_type hevc_ps_class 32 d) fuel d n i (cur, acc); Ok (attach tot0 r)).
 Proof.
   induction fuel as [|f IH]; intros n i cur acc; [reflexivity|].
   cbn [hevc_gpsb_loop bs_loop].
   destruct (i <? n - 3); [|reflexivity].
   rewrite hevc_sc_at_eq. destruct (sc_at d i) as [m| | |]; cbn [rbind]; try reflexivity.
   destruct m; [|apply IH].
+  assert (Hnext : forall acc' : hevc_ps,
+    (do h0 <- getb d (i + 3);
+     if (hevc_GetNaluType h0 <? 32)%N then Ok (inr (acc', tot0 + sum3 acc'))
+     else hevc_gpsb_loop f d n (i + 1) (i + 3) acc' (tot0 + sum3 acc'))
+    = (do r <- (do r0 <- (do h0 <- getb d (i + 3);
+                          if (hevc_type h0 <? 32)%N then Ok (inr acc') else Ok (inl (i + 3, acc')));
+                match r0 with
+                | inl st' => bs_loop (gpsb_body hevc_type hevc_ps_class 32 d) f d n (i + 1) st'
+                | inr x => Ok (inr x)
+                end);
+       Ok (attach tot0 r))).
+  { intros acc'. destruct (getb d (i + 3)) as [h0| | |]; cbn [rbind]; try reflexivity.
+    rewrite hevc_GetNaluType_eq. destruct (hevc_type h0 <? 32)%N; cbn [rbind attach]; [reflexivity|apply IH]. }
   destruct acc as [[v sp] p]. unfold gpsb_body.
   destruct (cur >? 0).
   - rewrite hevc_nalu_end_eq. destruct (trim_end d cur i) as [e| | |]; cbn [rbind]; try reflexivity.
     destruct (getb d cur) as [h| | |]; cbn [rbind]; try reflexivity.
     rewrite hevc_GetNaluType_eq.
-    assert (Hnext : forall acc' : hevc_ps,
-      (do h0 <- getb d (i + 3);
-       if (hevc_GetNaluType h0 <? 32)%N then Ok (inr acc') else hevc_gpsb_loop f d n (i + 1) (i + 3) acc')
-      = (do r <- (do h0 <- getb d (i + 3);
-                  if (hevc_type h0 <? 32)%N then Ok (inr acc') else Ok (inl (i + 3, acc')));
-         match r with
-         | inl st' => bs_loop (gpsb_body hevc_type hevc_ps_class 32 d) f d n (i + 1) st'
-         | inr x => Ok (inr x)
-         end)).
-    { intros acc'. destruct (getb d (i + 3)) as [h0| | |]; cbn [rbind]; try reflexivity.
-      rewrite hevc_GetNaluType_eq. destruct (hevc_type h0 <? 32)%N; cbn [rbind]; [reflexivity|apply IH]. }
     destruct (N.eqb_spec (hevc_type h) 32) as [E32|E32].
     { rewrite E32, hevc_ps_class_32. cbn [N.leb N.compare].
-      destruct (slice d cur e) as [x| | |]; cbn [rbind]; try reflexivity. apply Hnext. }
+      destruct (slice d cur e) as [x| | |] eqn:Hsl; cbn [rbind fst snd]; try reflexivity.
+      replace (tot0 + sum3 (v, sp, p) + (e - cur)) with (tot0 + sum3 (x :: v, sp, p))
+        by (cbn [sum3]; rewrite sum_len_cons, (slice_Zlen _ _ _ _ Hsl); lia).
+      apply Hnext. }
     destruct (N.eqb_spec (hevc_type h) 33) as [E33|E33].
     { rewrite E33, hevc_ps_class_33. cbn [N.leb N.compare Pos.compare Pos.compare_cont].
-      destruct (slice d cur e) as [x| | |]; cbn [rbind]; try reflexivity. apply Hnext. }
+      destruct (slice d cur e) as [x| | |] eqn:Hsl; cbn [rbind fst snd]; try reflexivity.
+      replace (tot0 + sum3 (v, sp, p) + (e - cur)) with (tot0 + sum3 (v, x :: sp, p))
+        by (cbn [sum3]; rewrite sum_len_cons, (slice_Zlen _ _ _ _ Hsl); lia).
+      apply Hnext. }
     destruct (N.eqb_spec (hevc_type h) 34) as [E34|E34].
     { rewrite E34, hevc_ps_class_34. cbn [N.leb N.compare Pos.compare Pos.compare_cont].
-      destruct (slice d cur e) as [x| | |]; cbn [rbind]; try reflexivity. apply Hnext. }
+      destruct (slice d cur e) as [x| | |] eqn:Hsl; cbn [rbind fst snd]; try reflexivity.
+      replace (tot0 + sum3 (v, sp, p) + (e - cur)) with (tot0 + sum3 (v, sp, x :: p))
+        by (cbn [sum3]; rewrite sum_len_cons, (slice_Zlen _ _ _ _ Hsl); lia).
+      apply Hnext. }
     rewrite (hevc_ps_class_other _ E32 E33 E34).
-    destruct (hevc_type h <=? 31)%N; cbn [N.leb N.compare Pos.compare Pos.compare_cont rbind]; apply Hnext.
-  - cbn [rbind].
-    destruct (getb d (i + 3)) as [h0| | |]; cbn [rbind]; try reflexivity.
-    rewrite hevc_GetNaluType_eq. destruct (hevc_type h0 <? 32)%N; cbn [rbind]; [reflexivity|apply IH].
+    destruct (hevc_type h <=? 31)%N; cbn [N.leb N.compare Pos.compare Pos.compare_cont rbind fst snd]; apply Hnext.
+  - cbn [rbind fst snd]. apply Hnext.
 Qed.
 
-Lemma hevc_gpsb_finish_eq d r : hevc_gpsb_finish d r = gpsb_finish hevc_type hevc_ps_class d r.
+(* the part after the loop: last unit, then the order reversal; totSize stays the total length *)
+Lemma hevc_gpsb_finish_eq d tot0 r :
+  hevc_gpsb_finish d (attach tot0 r) =
+  (do a <- gpsb_finish hevc_type hevc_ps_class d r; Ok (a, tot0 + sum3 a)).
 Proof.
-  destruct r as [[cur [[v sp] p]]|[[v sp] p]]; cbn [hevc_gpsb_finish gpsb_finish ps_rev]; [|reflexivity].
-  destruct (cur >? 0); [|reflexivity].
-  destruct (getb d cur) as [h| | |]; cbn [rbind]; try reflexivity.
+  assert (Hrev : forall v sp p, sum3 (rev v, rev sp, rev p) = sum3 (v, sp, p))
+    by (intros; cbn [sum3]; rewrite !sum_len_rev; reflexivity).
+  destruct r as [[cur [[v sp] p]]|[[v sp] p]]; cbn [attach hevc_gpsb_finish gpsb_finish ps_rev rbind].
+  2:{ rewrite Hrev. reflexivity. }
+  destruct (cur >? 0); cbn [rbind ps_rev]; [|rewrite Hrev; reflexivity].
+  destruct (getb d cur) as [h| | |]; cbn [rbind ps_rev]; try reflexivity.
   rewrite hevc_GetNaluType_eq.
   destruct (N.eqb_spec (hevc_type h) 32) as [E32|E32].
   { rewrite E32, hevc_ps_class_32. cbn [N.leb N.compare].
-    destruct (slice d cur (Zlen d)) as [x| | |]; cbn [rbind]; reflexivity. }
+    destruct (slice d cur (Zlen d)) as [x| | |] eqn:Hsl; cbn [rbind ps_add N.eqb ps_rev]; try reflexivity.
+    rewrite Hrev. cbn [sum3]. rewrite sum_len_cons, (slice_Zlen _ _ _ _ Hsl). apply f_equal. apply f_equal. lia. }
   destruct (N.eqb_spec (hevc_type h) 33) as [E33|E33].
   { rewrite E33, hevc_ps_class_33. cbn [N.leb N.compare Pos.compare Pos.compare_cont].
-    destruct (slice d cur (Zlen d)) as [x| | |]; cbn [rbind]; reflexivity. }
+    destruct (slice d cur (Zlen d)) as [x| | |] eqn:Hsl; cbn [rbind ps_add N.eqb Pos.eqb ps_rev]; try reflexivity.
+    rewrite Hrev. cbn [sum3]. rewrite sum_len_cons, (slice_Zlen _ _ _ _ Hsl). apply f_equal. apply f_equal. lia. }
   destruct (N.eqb_spec (hevc_type h) 34) as [E34|E34].
   { rewrite E34, hevc_ps_class_34. cbn [N.leb N.compare Pos.compare Pos.compare_cont].
-    destruct (slice d cur (Zlen d)) as [x| | |]; cbn [rbind]; reflexivity. }
+    destruct (slice d cur (Zlen d)) as [x| | |] eqn:Hsl; cbn [rbind ps_add N.eqb Pos.eqb ps_rev]; try reflexivity.
+    rewrite Hrev. cbn [sum3]. rewrite sum_len_cons, (slice_Zlen _ _ _ _ Hsl). apply f_equal. apply f_equal. lia. }
   rewrite (hevc_ps_class_other _ E32 E33 E34).
-  destruct (hevc_type h <=? 31)%N; reflexivity.
+  destruct (hevc_type h <=? 31)%N; cbn [N.leb N.compare Pos.compare Pos.compare_cont rbind ps_rev]; rewrite Hrev; reflexivity.
+Qed.
+
+(* the whole function: scanning loop, last unit, repacking into psData -- equal to the shared transcription
+   (which returns the sub-slices of data directly), on every input *)
+Lemma hevc_gpsb_eq s : hevc_GetParameterSetsFromByteStream s = hevc_get_parameter_sets_from_byte_stream s.
+Proof.
+  unfold hevc_GetParameterSetsFromByteStream, hevc_get_parameter_sets_from_byte_stream,
+    get_parameter_sets_from_byte_stream.
+  pose proof (hevc_gpsb_loop_eq s 0 (S (length s)) (Zlen s) 0 (-1) ([], [], [])) as HL.
+  change (0 + sum3 ([], [], [])) with 0 in HL. rewrite HL. clear HL.
+  rewrite rbind_assoc. apply rbind_ext. intros r. cbn [rbind].
+  rewrite hevc_gpsb_finish_eq.
+  destruct (gpsb_finish hevc_type hevc_ps_class s r) as [[[v sp] p]| | |]; cbn [rbind fst snd]; try reflexivity.
+  rewrite Z.add_0_l. apply repack_exact.
 Qed.
 
 Lemma hevc_enot_loop_eq want stop d : forall fuel n i cur acc, n = Zlen d ->
@@ -225,9 +273,6 @@ Qed.
 Lemma hevc_enot_finish_eq want d r : hevc_enot_finish want d r = enot_finish hevc_type want d r.
 Proof. destruct r as [[cur acc]|acc]; reflexivity. Qed.
 
-Lemma rbind_ext {A B} (r : res A) (f g : A -> res B) : (forall x, f x = g x) -> rbind r f = rbind r g.
-Proof. intros H. destruct r; cbn [rbind]; [apply H|reflexivity|reflexivity|reflexivity]. Qed.
-
 (* the nine HEVC entry points: own transcription = shared-loop instantiation, on every input *)
 Lemma hevc_transcriptions_agree : forall s : list N,
   hevc_FindNaluTypes s = hevc_find_nalu_types s /\
@@ -263,9 +308,7 @@ Proof.
   split.
   { unfold hevc_GetParameterSets, hevc_get_parameter_sets. apply hevc_gps_loop_eq. }
   split.
-  { unfold hevc_GetParameterSetsFromByteStream, hevc_get_parameter_sets_from_byte_stream,
-      get_parameter_sets_from_byte_stream.
-    rewrite hevc_gpsb_loop_eq. apply rbind_ext. intros r. apply hevc_gpsb_finish_eq. }
+  { apply hevc_gpsb_eq. }
   intros want stop.
   unfold hevc_ExtractNalusOfTypeFromByteStream, hevc_extract_nalus_of_type, extract_nalus_of_type.
   rewrite hevc_enot_loop_eq by reflexivity. apply rbind_ext. intros r. apply hevc_enot_finish_eq.
